@@ -607,7 +607,7 @@ pub fn sweep_family(seed: u64, f: u64, out: &mut SweepOut) {
     let doc = gen::gen_doc(&mut rng, &p);
     let mut names_in = vec![];
     gen::names_of(&doc, &mut names_in);
-    let g = QGen { names: &names_in, fancy: true, regex: f % 4 == 0, ext: true, safe_quotes: false };
+    let g = QGen { names: &names_in, fancy: true, regex: f % 4 == 0, ext: true, safe_quotes: false, reenter: false };
     let repr: u8 = if f % 5 == 4 { 1 + (f % 8) as u8 } else { 0 };
     if sim_repr(repr) {
         simdoc::set_personality(Personality(repr - 1));
@@ -932,7 +932,7 @@ pub fn gen_corpus_with(seed: u64, n_fam: usize, q_per_fam: usize, adv: bool) -> 
         gen::names_of(&base, &mut names_in);
         let mut fq = vec![];
         let mut qrng = Rng::new(derive(seed, "c12query", f as u64));
-        let g = QGen { names: &names_in, fancy: true, regex: true, ext: true, safe_quotes: false };
+        let g = QGen { names: &names_in, fancy: true, regex: true, ext: true, safe_quotes: false, reenter: adv };
         let mut k = 0;
         while fq.len() < q_per_fam && k < q_per_fam * 4 {
             k += 1;
